@@ -15,6 +15,8 @@ CLAIMED = {
          'Trusted: model catalogue (checked_*, rem_euclid, Option plumbing). Outside: constructor string parsing (regex, chrono), ip, decimal parsing.', '4 C07'),
  'C14': ('TPE response: classification of residual policies into the eight bucket sets and the residual map (one loop step from an arbitrary state, Residual::is_true/is_false/is_error executed from MIR), completion-quantified decision table, reason(), ResidualPolicy -> Policy conversion, policy_set() presents the residuals',
          'Trusted: environment stubs for iterator/HashMap/HashSet/PolicySet::add and uninterpreted Policy getters. Outside: tpe::Evaluator simplification rules, can_error_assuming_well_formed, consistency checks, query_* APIs.', '4 C14'),
+ 'C04': ('transitive-closure algorithms of transitive_closure.rs on symbolic graphs (<= 3 entities + 1 parent id without a record; thorough: 4 entities), every parent link a symbolic boolean: compute_tc yields exactly reachability through parent links and (enforce_dag) reports a cycle iff one exists; enforce_tc_and_dag accepts exactly transitively closed acyclic stores',
+         'Bounded: stores of <= 3 (4) entities. Trusted: concrete-key models of std HashMap/HashSet/Vec/Range/sort_by with insertion-order iteration (mir2smt/containers.py); node = id + row of edge bits. Outside: larger stores, EntityUID hashing/equality, order-dependent behaviour under other hash orders.', '4 C04'),
  'C11': ('schema conformance per node / loop element: ValidatorSchema::{validate_request, validate_scope_variables, validate_context}, EntitySchemaConformanceChecker::{validate_entity, validate_entity_attributes, validate_entity_ancestors, validate_tags, validate_action}, validate_euid, is_valid_enumerated_entity, validate_euids_in_subexpressions, typecheck_restricted_expr_against_schematype and Type::typecheck_restricted_expr for every (type kind, value kind) with <= 2 members and arbitrary member verdicts, and the core entry points (Entities::{add,upsert,from}_entities, single_from_ejson, Request::{new,new_with_unknowns}): accept exactly when every requirement holds',
          'Trusted: schema look-ups as arbitrary-answer stubs (that the schema object answers correctly is only exercised natively), name/type equality as free booleans, small-container models for HashMap/BTreeMap/iterator adaptors. Outside: JSON parsing and schema-directed coercion, TPE entry points, correctness of CoreSchema/EntityTypeDescription construction.', '4 C11'),
  'C16': ('level checker: per-node level calculus of check_expr_level / check_entity_deref_target_level (every node kind, arbitrary child levels and maximum): every child visited with the right access path, dereferences report `maximum level exceeded` iff target level >= max (=> monotone in the maximum), +1 for entity attribute access and getTag, max over if-branches, non-action literals rejected',
@@ -30,7 +32,6 @@ CLAIMED = {
 }
 NA = {
  'C03': 'strict-validation soundness needs the typechecker over a ValidatorSchema composed with the whole evaluator in one query; the evaluator alone exceeded 24 GB under CBMC and its typed-AST recursion is not loop-free for engine M',
- 'C04': 'closure maintenance is loops over HashMap/HashSet of entities; Kani did not finish the 3-node generic harness in 40 min (4-14 GB) and engine M has no model of hash iteration',
  'C05': 'subject is parse(print(ast)); the LALRPOP parser lexes with the regex crate - not a bounded computation either engine can take',
  'C06': 'hand-written structural recursions over Expr/EST/PST trees plus prost; symbolic tree payloads explode, concrete trees give the solver nothing to decide',
  'C09': 'two parsers (LALRPOP + serde_json) and name resolution over HashMaps of parsed names',
